@@ -8,6 +8,7 @@ import Penguin.Lemmas.MuxBasic
 import Penguin.Lemmas.MuxStep
 import Penguin.Lemmas.MuxOnceB
 import Penguin.Lemmas.BindPair
+import Penguin.Lemmas.BindStim
 
 namespace Penguin.C15
 open Penguin Penguin.Mux
@@ -201,5 +202,39 @@ private def pfin : BindPair.PS := BindPair.run (BindPair.init {} { bindCap := 2 
 example : pfin.ga.results = [(2, .accepted), (1, .refused)] := by decide
 example : pfin.gb.links = [(1, 0), (2, 1)] ∧ pfin.gb.accepted = [1] ∧ pfin.gb.rejected = [0] := by decide
 example : pfin.a.flows = [] ∧ pfin.ba = [] ∧ pfin.b.outq = [] := by decide
+
+/-- What the correspondence harness executes is covered by the pair theorems: an application call of
+    the harness at an endpoint (`request_bind`, `next_bind_request`, `reply`, dropping a
+    `BindRequest` — each followed by the connection task's run to quiescence, `Mux.applyOp`, the
+    function compared with the real `Multiplexor`) leaves the endpoint and the wire exactly as the
+    run `call; unpark; xmit × n` of the pair does. -/
+theorem harness_bind_call_is_a_run (oa ob : Opts) (ra rb : List Nat) (acts : List (BindPair.Side × BindPair.Act))
+    (a : BindPair.Act) (op : Mux.Op) (q1 : BindPair.PS) (ho : BindPair.opOf a = some op)
+    (hs : BindPair.stepL (BindPair.run (BindPair.init oa ob ra rb) acts) a = some q1) :
+    let p := BindPair.run (BindPair.init oa ob ra rb) acts
+    ∃ n q, BindPair.runL p (a :: .unpark :: List.replicate n .xmit) = some q ∧
+      q.a = (applyOp p.a op).1 ∧ q.ab = p.ab ++ BindPair.wiresOf (applyOp p.a op).2.2 ∧ q.b = p.b ∧ q.ba = p.ba :=
+  BindPair.call_is_a_run (BindPair.reachable_inv oa ob ra rb acts) ho hs
+
+/-- … and a delivery of the harness (the oldest message in transit is handed to an endpoint whose
+    receive loop is not parked, then the task runs to quiescence) leaves them as the run
+    `recv; unpark; xmit × n` does; the delivery is always enabled (no frame of bind traffic ends the
+    connection). -/
+theorem harness_bind_delivery_is_a_run (oa ob : Opts) (ra rb : List Nat) (acts : List (BindPair.Side × BindPair.Act))
+    (f : Frame) (rest : List Msg)
+    (hba : (BindPair.run (BindPair.init oa ob ra rb) acts).ba = .frame f :: rest)
+    (hp : (BindPair.run (BindPair.init oa ob ra rb) acts).a.park = none) :
+    let p := BindPair.run (BindPair.init oa ob ra rb) acts
+    ∃ n q, BindPair.runL p (.recv :: .unpark :: List.replicate n .xmit) = some q ∧
+      q.a = (applyOp p.a (.deliver (.msg (.frame f)))).1 ∧
+      q.ab = p.ab ++ BindPair.wiresOf (applyOp p.a (.deliver (.msg (.frame f)))).2.2 ∧ q.b = p.b ∧ q.ba = rest :=
+  BindPair.deliver_is_a_run (BindPair.reachable_inv oa ob ra rb acts) f rest hba hp
+
+/-! Non-vacuity: after A's two requests were transmitted, the first is in transit to B, whose receive
+    loop is not parked; and `request_bind` is enabled at A in the initial state. -/
+example : (BindPair.run (BindPair.init {} { bindCap := 2 } [7, 8] []) (pacts.take 4)).swap.ba =
+    [.frame (.bind 7 .stream 80 [97]), .frame (.bind 8 .datagram 81 [98])] ∧
+    (BindPair.run (BindPair.init {} { bindCap := 2 } [7, 8] []) (pacts.take 4)).swap.a.park = none := by decide
+example : (BindPair.stepL (BindPair.init {} { bindCap := 2 } [7, 8] []) (.bindReq 1 .stream [97] 80)).isSome = true := by decide
 
 end Penguin.C15
